@@ -12,6 +12,9 @@ CLAIMS = {
  "C07": dict(engine="prefixed", design="6/C07", technique="TLC exhaustive model checking of spec/Prefixed.tla (impl-shaped prefix range vs reference window; B=3 and B=256) + replay of every (operation, state) through App's prefixed-storage API + TLC trace validation of random/directed real executions incl. a 65535 x 0xFF namespace",
    text="Exhaustive bounded model checking of the namespacing design in TLA+ (window exactness, disjointness, frame), every explored transition replayed through the public prefixed-storage API of App with raw dump and full view battery compared to TLC's answers, plus TLC validation of recorded real executions with arbitrary byte namespaces.",
    note="Bounded: adversarial path/key sets over bytes 0x00/0x01/0xFF, <= 3 operations exhaustively; the B=3 configuration covers the all-maximal prefix at design level and a directed trace covers it with real bytes. Trusted: TLC, MockStorage."),
+ "C09": dict(engine="bank", design="6/C09", technique="TLC exhaustive model checking of spec/Bank.tla (impl-shaped coin-by-coin arithmetic vs declarative per-denomination totals; conservation) + replay of every (operation, state) on a real App with 128-bit scaled amounts + TLC trace validation of random real histories",
+   text="Exhaustive bounded model checking of the ledger in TLA+ (conservation, exact movement, fail-exactly-when, no-op on failure), every explored transition replayed through App's bank entry points with all three query kinds compared to TLC's state, plus TLC validation of long random histories recorded from the real code.",
+   note="Bounded: 3-4 accounts, 2 denominations, coin lists up to 3 coins over small amounts, supply <= Cap exhaustively; amounts scaled linearly up to 2^128-1; random histories (5 accounts, 3 denominations, hundreds of operations) validated by TLC. Trusted: TLC, cosmwasm-std queries."),
 }
 
 def main():
